@@ -120,7 +120,7 @@ class C02(Check):
     driver = "drv_c02"
     theorems = ["Pox.C02.ctl_framing", "Pox.C02.ctl_prefix", "Pox.C02.sw_framing", "Pox.C02.sw_prefix", "Pox.C02.ctl_segmentation_independent", "Pox.C02.sw_segmentation_independent", "Pox.C02.slice_framing", "Pox.C02.ctl_feed_no_disconnect",
                 "Pox.C02.ctl_handler_outcome", "Pox.C02.sw_handler_outcome", "Pox.C02.ctl_framing_handlers", "Pox.C02.sw_framing_handlers",
-                "Pox.C02.ctl_eof", "Pox.C02.sw_eof", "Pox.C02.ctl_framing_nicira", "Pox.C02.ctl_prefix_nicira", "Pox.C02.nx_eager_lookahead_breaks"]
+                "Pox.C02.ctl_eof", "Pox.C02.sw_eof", "Pox.C02.ctl_framing_nicira", "Pox.C02.ctl_prefix_nicira", "Pox.C02.ctl_segmentation_independent_nicira", "Pox.C02.nx_eager_lookahead_breaks"]
     anchors = [("pox/openflow/of_01.py", "Connection.read"), ("pox/datapaths/switch.py", "OFConnection.read"),
                ("pox/lib/ioworker/__init__.py", "IOWorker._do_recv"), ("pox/lib/ioworker/__init__.py", "IOWorker._push_receive_data"),
                ("pox/lib/ioworker/__init__.py", "IOWorker.peek"), ("pox/lib/ioworker/__init__.py", "IOWorker.consume_receive_buf")]
